@@ -102,6 +102,80 @@ CHECKS = {
         "Operation names unique by construction; menu case headers only under message_SwitchMenu-style headers.",
         "DESIGN.md 4 C13",
     ),
+    "C05": (
+        "translation_validation",
+        "Hypothesis macro / import generator (call graphs, permutations, multi-file scratch layouts); reference inliner + reference semantics; exact all-paths equivalence; differential against the canonical order",
+        "Every generated acyclic macro program must compile in the drawn definition order and file distribution, behave "
+        "(all paths, via the machine model) like the program with every call inlined by an independent reference inliner, "
+        "and compile op-for-op like the same macros in one file; decoy files in later lookup paths must never be used. "
+        "Compilation runs under a deterministic step budget (a former defect made it never return).",
+        "Trusts the reference inliner (vf/gen_macro.py) and S/M; parameters never carry the performance-progress constant; macro bodies are self-contained.",
+        "DESIGN.md 4 C05",
+    ),
+    "C08": (
+        "exploration",
+        "Hypothesis program generator with unique op names / header variables, macros over several files, drawn layout; source-map entries compared with the positions recorded by the token-level renderer and with the reference expansion structure",
+        "compile().source_map is checked entry by entry: existence for every emitted op, exact positions for uniquely "
+        "named ops (direct and macro), admissible header/statement starts for the rest, defining file / macro / call site "
+        "for macro entries, return-address bounds derived from the reference inliner's expansion tree, named files vs "
+        "IncludedUsageMap, recorded position marks vs emitted parameters.",
+        "Compiler-inserted ops only need to map to some statement/header start; one stored call site per op (outer or nested call accepted).",
+        "DESIGN.md 4 C08",
+    ),
+    "C09": (
+        "exploration",
+        "Hypothesis SSB routine-set generator with unique op names and multi-line parameters; the decompile-time source map is checked against the emitted text by position and per-opcode-family patterns, and against the compile-time map of the same text",
+        "For both decompilers every entry must be keyed by an input op offset and point at the start of the statement "
+        "printed for that op; uniquely named printed operations must have an entry at exactly their position; recompiling "
+        "the text must put them on the same line.",
+        "An elided Jump may keep an entry at the statement printed in its place; ops grouped in one `if (a || b)` share the first op's entry.",
+        "DESIGN.md 4 C09",
+    ),
+    "C11": (
+        "exploration",
+        "Hypothesis RuleBasedStateMachine over compile / decompile call histories with a fresh-interpreter reference model",
+        "Histories of up to 25 (thorough: 50) calls over a drawn pool of programs, failing programs and routine sets, incl. "
+        "one shared compiler instance, repeated convert() on one decompiler and reuse of the same op objects; after every "
+        "step the result must equal, byte for byte in canonical JSON form, the result computed for that input alone in a "
+        "fresh interpreter process, and the caller's op objects must still denote the same routine set.",
+        "Canonical forms of vf/results.py; param.indent is not meaning.",
+        "DESIGN.md 4 C11",
+    ),
+    "C12": (
+        "exploration",
+        "Hypothesis-drawn thread schedules executed by a deterministic cooperative scheduler (sys.settrace yield points at line / opcode granularity) plus free-running threads with a 1 microsecond switch interval; sequential results as oracle",
+        "2-4 concurrent compile/decompile jobs per case; the schedule is data (replays and shrinks); every job must return "
+        "exactly its sequential result and none may raise. Partial by nature: interleavings under the GIL at line/opcode "
+        "granularity in the anchored modules, not C-level races and not other Python implementations.",
+        "A thread is never parked while holding graph_utils.cache_lock; free-running failures are not replayable as schedules.",
+        "DESIGN.md 4 C12",
+    ),
+    "C15": (
+        "translation_validation",
+        "Hypothesis program and JSON-document generators driving both CLI modules in-process (runpy) and as real subprocesses; structure check, jump-position check against the API result, behavioural comparison of the CLI round trip by the reference semantics",
+        "Every generated program goes compile command -> JSON -> decompile command; the JSON must have the documented "
+        "structure with jump parameters equal to 1-based op positions, and the decompiled text must behave like the source "
+        "on all paths; documents built from docs/cli_api_usage.rst must be accepted; invalid inputs must give a non-zero status.",
+        "Round-trip behaviour is not compared when the decompile command prints the fallback or the input is hit by a C02 known finding.",
+        "DESIGN.md 4 C15",
+    ),
+    "C17": (
+        "exploration",
+        "Hypothesis text generators (arbitrary Unicode, quote/comment-heavy alphabet, rendered and truncated programs); totality bound and text-preservation oracle on the Pygments lexer",
+        "get_tokens_unprocessed must yield contiguous tokens that concatenate to the input within len(text)+1 tokens; "
+        "get_tokens must reproduce the normalised input; no Error token for compiler-accepted sources.",
+        "Pygments' preprocessing is trusted; termination is observed through the token-count bound.",
+        "DESIGN.md 4 C17",
+    ),
+    "C18": (
+        "exploration",
+        "Hypothesis program generator rich in Position literals with drawn layout; listing compared with the token-level renderer's record; metamorphic single-span edit",
+        "PositionMarkVisitor's result must equal the renderer's record (count, order, start, end, values) for literals in "
+        "routines, macro bodies, call arguments and operation headers, also when a literal spans lines; replacing exactly "
+        "one reported span by the printed form of an edited mark must change only parameters of that mark.",
+        "Mark names are unique per program.",
+        "DESIGN.md 4 C18",
+    ),
 }
 
 NOT_YET = {}
